@@ -248,6 +248,14 @@ func (r *Runner[S]) writeReplay(js []byte, h string, v Verdict) string {
 // judge runs one scenario and handles known findings. It returns a non-empty string when the
 // scenario is a (new) violation.
 func (r *Runner[S]) judge(sc S, counting bool) (string, Verdict, []byte, string) {
+	if dir := os.Getenv("VERIF_TRACK_CURRENT"); dir != "" {
+		// noted for the driver: if the node's code panics in a goroutine of its own the process dies with the
+		// scenario, and this file is what is left of it
+		if js, err := json.Marshal(sc); err == nil {
+			b, _ := json.Marshal(replayFile{Property: r.id, Check: r.name, Scenario: js})
+			_ = os.WriteFile(filepath.Join(dir, "current.json"), b, 0o644)
+		}
+	}
 	stop := r.watchWedge(sc)
 	v := r.run(sc)
 	stop()
